@@ -281,3 +281,38 @@ def defined_in(prog, f, filename):
     # a free function of the same name in another module makes this ambiguous; inlining is semantics-preserving, so the
     # ambiguity only matters for what counts as a leaf - accept
     return True
+
+
+def module_inliner(prog, filename, leaves):
+    """inline predicate: every function / closure defined in fclones/src/<filename> except the leaves (regex on the callee text or
+    the target name).  Makes an obligation independent of how the module's code is factored into helper functions."""
+    def inl(callee, target):
+        return defined_in(prog, target, filename) and not re.search(leaves, callee) and not re.search(leaves, target.name)
+    return inl
+
+
+def spawned_task(prog, outer, spawn_pat=r"spawn_fifo|ThreadPool::spawn"):
+    """The closure handed to the thread pool inside `outer` (searched through its nested closures): returns
+    (closure Fn, span, [(capture name, type of the captured local)])."""
+    hits = []
+    for n, g in prog.fns.items():
+        if not (n == outer.name or n.startswith(outer.name + "::{closure#")):
+            continue
+        spans = []
+        for b in g.blocks.values():
+            t = b.term
+            if t and t[0] == "call" and re.search(spawn_pat, t[2]):
+                m = re.search(r"\{closure@[^}]*\}", t[2])
+                if m:
+                    spans.append(m.group(0))
+        for sp in spans:
+            for b in g.blocks.values():
+                for st in b.stmts:
+                    if st[0] == "assign" and st[2][0] == "aggregate" and st[2][1] == "closure" and st[2][2] == sp:
+                        caps = [(x[0], g.locals.get(x[1][1].local, "?") if x[1][0] in ("copy", "move") else "?") for x in st[2][3]]
+                        cf = prog.closure_by_span(sp)
+                        if cf is not None:
+                            hits.append((cf, sp, caps))
+    if len(hits) != 1:
+        raise Inconclusive("task closure spawned by %s: %d candidates" % (outer.name, len(hits)))
+    return hits[0]
